@@ -509,13 +509,11 @@ def run_pspace_indexing(ctx):
             try:
                 subsp = p[ix]
                 sub = x[ix]
-                if hasattr(sub, 'space') and sub.space != subsp:
-                    # array weightings are equal only for the identical array object (documented); compare by value
-                    same = (pn == 'array-weighted' and isinstance(subsp, odl.ProductSpace) and
-                            list(sub.space.spaces) == list(subsp.spaces) and sub.space.exponent == subsp.exponent and
-                            np.array_equal(getattr(sub.space.weighting, 'array', None), getattr(subsp.weighting, 'array', None)))
-                    if not same:
-                        ctx.violation('ProductSpace[idx]', cfg, 'x[idx].space!=space[idx]')
+                if hasattr(sub, 'space') and (sub.space != subsp or hash(sub.space) != hash(subsp)):
+                    # per-component weight arrays are compared by value (repair 69c6e0c): indexing twice gives equal spaces
+                    ctx.violation('ProductSpace[idx]', cfg, 'x[idx].space!=space[idx]')
+                if isinstance(subsp, odl.ProductSpace) and (p[ix] != subsp or hash(p[ix]) != hash(subsp)):
+                    ctx.violation('ProductSpace[idx]', cfg, 'space[idx]!=space[idx]')
                 if isinstance(ix, (slice, list)) and isinstance(subsp, odl.ProductSpace):
                     sel = list(range(len(p)))[ix] if isinstance(ix, slice) else ix
                     if list(subsp.spaces) != [p.spaces[i] for i in sel]:
